@@ -8,7 +8,7 @@
            restricted types, dataclasses, subclass specs, the argv / string / append channels): no model,
            the spec alone is judged; the type skeleton only decides the finding class.  XCases also carry
            the dump leg: parse_string(dump(cfg)) and the two dumped texts. *)
-From JV Require Import Lib.Base Model.C10Adapt Model.C10Parser Spec.C10Spec.
+From JV Require Import Lib.Base Model.C10Adapt Model.C10Parser Model.C10Nargs Spec.C10Spec.
 
 Record oracle := {
   o_jload : list (str * lres);        (* json_or_yaml_load *)
@@ -71,11 +71,42 @@ Definition class_path_of (w : val) : option str :=
   | _ => None
   end.
 
+(* ... and the difference is exactly "the default's extras were merged in": class_path and init_args are equal, every
+   dict_kwargs entry of the first result is an entry of the re-parsed one with an equal value (round 6: the class used to
+   excuse ANY difference on such a key) *)
+Definition vfield (w : val) (name : str) : option val :=
+  match w with
+  | VDict d => (fix go (d : list (val * val)) : option val :=
+                  match d with
+                  | [] => None
+                  | (VStr k, x) :: d' => if str_eqb k name then Some x else go d'
+                  | _ :: d' => go d'
+                  end) d
+  | _ => None
+  end.
+
+Definition opt_veq (a b : option val) : bool :=
+  match a, b with Some x, Some y => veq x y | None, None => true | _, _ => false end.
+
+Definition s_class_path : str := [99;108;97;115;115;95;112;97;116;104]%N.
+Definition s_init_args : str := [105;110;105;116;95;97;114;103;115]%N.
+Definition s_dict_kwargs : str := [100;105;99;116;95;107;119;97;114;103;115]%N.
+
+Definition extras_merged_in (x y : val) : bool :=
+  opt_veq (vfield x s_class_path) (vfield y s_class_path)
+  && opt_veq (vfield x s_init_args) (vfield y s_init_args)
+  && match vfield x s_dict_kwargs, vfield y s_dict_kwargs with
+     | Some (VDict dx), Some (VDict dy) =>
+         forallb (fun kv => existsb (fun kb => veq (fst kv) (fst kb) && veq (snd kv) (snd kb)) dy) dx
+     | None, _ => true
+     | _, _ => false
+     end.
+
 Fixpoint diffs_excused (sk : list xty) (w a : list val) : bool :=
   match sk, w, a with
   | t :: sk', x :: w', y :: a' =>
       (veq x y || match t, class_path_of x with
-                  | XSubKw dc, Some cp => str_eqb dc cp
+                  | XSubKw dc, Some cp => str_eqb dc cp && extras_merged_in x y
                   | _, _ => false
                   end) && diffs_excused sk' w' a'
   | [], [], [] => true
@@ -92,7 +123,11 @@ Inductive case :=
 | NsCase (p : parser) (obj : val) (o : oracle)
          (first : outcome (list val)) (valid : bool) (again : list (outcome (list val)))
 | XCase (sk : list xty) (first : outcome (list val)) (valid : bool) (again : list (outcome (list val)))
-        (reparsed : outcome (list val)) (text1 text2 : option str).
+        (reparsed : outcome (list val)) (text1 text2 : option str)
+(* a parser with ONE list-valued option (nargs '+', '*', N; no default) of a modelled type and the value given for it
+   in an object: modelled by Model/C10Nargs.v *)
+| LCase (t : ty) (v0 : val) (o : oracle)
+        (first : outcome (list val)) (valid : bool) (again : list (outcome (list val))).
 
 Definition to_outcome (r : option (list val)) : outcome (list val) :=
   match r with Some w => Accepted w | None => Rejected end.
@@ -126,6 +161,22 @@ Definition judge1 (c : case) : verdict :=
               | _ => true
               end;
          v_class := ns_class p obj o;
+         v_spec := fixed_point_spec cfg_eqb first valid again |}
+  | LCase t v0 o first valid again =>
+      let parse (v : val) : outcome (list val) :=
+        match v with
+        | VNone => Accepted [VNone]                      (* _check_value_key passes None under lenient_check *)
+        | _ => match parse_list_key (jl o) (pv o) (ik o) VNone t v with AOk w => Accepted [w] | AErr _ => Rejected end
+        end in
+      {| v_model :=
+           outcome_eqb cfg_eqb_m (parse v0) first
+           && match first with
+              | Accepted [w] =>
+                  Bool.eqb valid (validate_list_key (jl o) (pv o) (ik o) VNone t w)
+                  && forallb (fun a => outcome_eqb cfg_eqb_m (parse w) a) again
+              | _ => true
+              end;
+         v_class := if list_guard (jl o) (pv o) (ik o) VNone t v0 then 0%N else 1%N;
          v_spec := fixed_point_spec cfg_eqb first valid again |}
   | XCase sk first valid again reparsed text1 text2 =>
       {| v_model := true;
